@@ -90,4 +90,93 @@ theorem budet_of_check (E : Env U π) (h : budetB E.G = true) : BUDet E := by
   have r6 := List.all_eq_true.mp r5 (v, w') h3'
   simpa using r6
 
+/-! ### bottom-up determinism implies unambiguity -/
+
+theorem flatMap_length_le_one {α β : Type} (f : α → List β) : ∀ (l : List α), l.Nodup → (∀ x, x ∈ l → (f x).length ≤ 1) →
+    (∀ x y, x ∈ l → y ∈ l → f x ≠ [] → f y ≠ [] → x = y) → (l.flatMap f).length ≤ 1
+  | [], _, _, _ => by simp
+  | a :: l, hnd, h1, h2 => by
+    simp only [List.flatMap_cons, List.length_append]
+    have ih := flatMap_length_le_one f l (List.nodup_cons.mp hnd).2 (fun x hx => h1 x (List.mem_cons_of_mem _ hx))
+      (fun x y hx hy => h2 x y (List.mem_cons_of_mem _ hx) (List.mem_cons_of_mem _ hy))
+    have ha := h1 a List.mem_cons_self
+    by_cases hfa : f a = []
+    · rw [hfa]; simpa using ih
+    · have : l.flatMap f = [] := by
+        rw [List.flatMap_eq_nil_iff]
+        intro x hx
+        apply Classical.byContradiction
+        intro hfx
+        have := h2 a x List.mem_cons_self (List.mem_cons_of_mem _ hx) hfa hfx
+        subst this
+        exact (List.nodup_cons.mp hnd).1 hx
+      rw [this]; simpa using ha
+
+theorem alts?_nodup (E : Env U π) (d : UNT U) (hkeys : ∀ nt F, ((altsOf E nt F).map (·.1)).Nodup) (nt : UNT U) (F : Sym)
+    (cands : List (List (UNT U))) (hc : (E.G.toUCFG d).alts? nt F = some cands) : cands.Nodup := by
+  rw [alts?_toUCFG] at hc
+  have := hkeys nt F
+  unfold altsOf at this
+  cases hl : AList.lookup nt E.G.rules with
+  | none => simp [hl] at hc
+  | some rs =>
+    simp only [hl] at hc this
+    cases hl2 : AList.lookup F rs with
+    | none => simp [hl2] at hc
+    | some a =>
+      simp only [hl2, Option.map_some, Option.some.injEq, Option.getD_some] at hc this
+      rw [← hc]; exact this
+
+mutual
+  theorem derivs_length_le_one (E : Env U π) (d : UNT U) (hdet : BUDet E)
+      (hkeys : ∀ nt F, ((altsOf E nt F).map (·.1)).Nodup) : ∀ (p : Prog) (nt : UNT U),
+      (PS.U.derivs (E.G.toUCFG d) p nt).length ≤ 1
+    | .node F kids, nt => by
+      rw [PS.U.derivs]
+      cases hc : (E.G.toUCFG d).alts? nt F with
+      | none => simp
+      | some cands =>
+        simp only
+        apply flatMap_length_le_one _ cands (alts?_nodup E d hkeys nt F cands hc)
+        · intro v _
+          rw [List.length_map]
+          exact derivsList_length_le_one E d hdet hkeys kids v
+        · intro v v' _ _ h1 h2
+          have e1 : PS.U.derivsList (E.G.toUCFG d) kids v ≠ [] := by intro e; apply h1; rw [e]; rfl
+          have e2 : PS.U.derivsList (E.G.toUCFG d) kids v' ≠ [] := by intro e; apply h2; rw [e]; rfl
+          exact derList_unique E hdet kids v v' ((derList_iff_derivsList E d kids v).mpr e1)
+            ((derList_iff_derivsList E d kids v').mpr e2)
+  theorem derivsList_length_le_one (E : Env U π) (d : UNT U) (hdet : BUDet E)
+      (hkeys : ∀ nt F, ((altsOf E nt F).map (·.1)).Nodup) : ∀ (ks : List Prog) (v : List (UNT U)),
+      (PS.U.derivsList (E.G.toUCFG d) ks v).length ≤ 1
+    | [], [] => by simp [PS.U.derivsList]
+    | [], _ :: _ => by simp [PS.U.derivsList]
+    | _ :: _, [] => by simp [PS.U.derivsList]
+    | k :: ks, a :: as => by
+      rw [PS.U.derivsList]
+      have h1 := derivs_length_le_one E d hdet hkeys k a
+      have h2 := derivsList_length_le_one E d hdet hkeys ks as
+      match hd : PS.U.derivs (E.G.toUCFG d) k a, h1 with
+      | [], _ => simp
+      | [x], _ =>
+        simp only [List.flatMap_cons, List.flatMap_nil, List.append_nil, List.length_map]
+        exact h2
+end
+
+/-- a bottom-up deterministic table with distinct alternatives and distinct start symbols is an
+    unambiguous grammar in the sense of the specification -/
+theorem unambiguous_of_budet (E : Env U π) (d : UNT U) (hdet : BUDet E)
+    (hkeys : ∀ nt F, ((altsOf E nt F).map (·.1)).Nodup) (hstarts : (E.G.starts.map (·.1)).Nodup) (p : Prog) :
+    PS.U.unambiguousOn (E.G.toUCFG d) p = true := by
+  unfold PS.U.unambiguousOn PS.U.allDerivs
+  simp only [decide_eq_true_eq]
+  apply flatMap_length_le_one _ _ hstarts
+  · intro nt _
+    rw [List.length_map]
+    exact derivs_length_le_one E d hdet hkeys p nt
+  · intro nt nt' _ _ h1 h2
+    have e1 : PS.U.derivs (E.G.toUCFG d) p nt ≠ [] := by intro e; apply h1; rw [e]; rfl
+    have e2 : PS.U.derivs (E.G.toUCFG d) p nt' ≠ [] := by intro e; apply h2; rw [e]; rfl
+    exact der_unique E hdet p nt nt' ((der_iff_derivs E d p nt).mpr e1) ((der_iff_derivs E d p nt').mpr e2)
+
 end PS.UHS
